@@ -546,6 +546,38 @@ def run_case(case, col, record=True):
         listings[key] = res
         return res
 
+    def physical_walk(ns):
+        pvd, jol = find_volume_descriptors(img)
+        root = pvd if ns == 'iso' else jol
+        if root is None:
+            return
+        todo = [((), _le32(root, 2), _le32(root, 10))]
+        user_idents = set(c.encode('utf-8') for o in ops for c in split(o['path']))
+        seen_ext = set()
+        ndirs = 0
+        while todo:
+            where, ext, size = todo.pop()
+            if ext in seen_ext or ndirs > 400:
+                continue
+            seen_ext.add(ext)
+            ndirs += 1
+            counts = {}
+            for r in read_directory(img, ext, size):
+                if r['ident'] in (b'\x00', b'\x01'):
+                    continue
+                counts[r['ident']] = counts.get(r['ident'], 0) + (0 if r['flags'] & 0x80 and counts.get(r['ident']) else 1)
+                if r['flags'] & 2:
+                    todo.append((where + (r['ident'],), r['extent'], r['size']))
+                    if ns == 'iso' and model.level == 1 and len(r['ident']) > 8 and where == (b'RR_MOVED',) and r['ident'] not in user_idents:
+                        col.fail('C13/c/derived-identifier-too-long/l1', 'c',
+                                 'a relocated directory got the identifier %r of the library\'s making: longer than 8 at level 1' % r['ident'], case)
+            bump(measured, 'physical-dirs-walked')
+            for ident, n in counts.items():
+                if n > 1:
+                    modelled = ns == 'iso' and tuple(c.decode('utf-8', 'replace') for c in where) in model.tree[ns]
+                    col.fail('C13/d/duplicate-on-disc/%s/physical/%s' % (ns, 'modelled-dir' if modelled else 'library-made-dir'), 'd',
+                             'identifier %r appears %d times in the %s directory %r of the written image' % (ident[:40], n, ns, b'/'.join(where)[:80]), case)
+
     dup_reported = set()
     try:
         # duplicates that were accepted: what happened on disc?
@@ -611,6 +643,12 @@ def run_case(case, col, record=True):
                                      'an accepted Rock Ridge name is absent from the NM entries of its directory', case)
                         elif n > 1:
                             col.fail('C13/d/duplicate-on-disc/rr', 'd', 'Rock Ridge name appears %d times in its directory' % n, case)
+        # the whole physical tree, also the directories nothing in the model names (the relocation directory and what the
+        # library moved into it under identifiers of its own making): no identifier twice, none longer than the level allows
+        if not dup_reported:
+            for ns in ('iso', 'joliet'):
+                if model.has_ns(ns):
+                    physical_walk(ns)
     except ScanError as e:
         col.fail('C13/a/independent-scan-failed/%s' % _DIGITS.sub('N', str(e))[:50].replace(' ', '-'), 'a',
                  'independent directory scan of the written image failed: %s' % e, case)
@@ -1000,8 +1038,37 @@ def t_depth(draw):
     return {'h': 'depth', 'new': new, 'ops': ops}
 
 
+@st.composite
+def t_reloc_twins(draw):
+    """Two to four directories of one name at the eighth level of different parents: Rock Ridge moves them all into one
+    relocation directory, where the library has to find identifiers for them itself (lengths around the level's limit)."""
+    level = draw(st.sampled_from([1, 1, 2, 3, 4]))
+    rr = draw(st.sampled_from(['1.09', '1.10', '1.12']))
+    new = {'level': level, 'rr': rr, 'joliet': None, 'udf': None}
+    n = draw(st.integers(2, 4))
+    lim = 8 if level == 1 else (31 if level < 4 else 60)
+    ln = draw(st.sampled_from([1, 4, 5, 6, 7, 8] if level == 1 else [3, 8, lim - 3, lim - 2, lim - 1, lim]))
+    leaf = body(draw(st.text(alphabet=D, min_size=1, max_size=4)), ln, 'plain')[:ln]
+    same_rr = draw(st.booleans())
+    ops = []
+    tops = draw(st.permutations(['A', 'B', 'C', 'E']))[:n]
+    for t in tops:
+        path = ''
+        for comp in (t, 'D2', 'D3', 'D4', 'D5', 'D6', 'D7'):
+            path += '/' + comp
+            ops.append({'op': 'dir', 'ns': 'iso', 'path': path, 'rr': comp.lower()})
+        ops.append({'op': 'dir', 'ns': 'iso', 'path': path + '/' + leaf, 'rr': 'leaf' if same_rr else 'leaf' + t.lower()})
+        if draw(st.booleans()):
+            ops.append({'op': 'file', 'ns': 'iso', 'path': path + '/' + leaf + '/F.;1', 'rr': 'f'})
+    if draw(st.integers(0, 3)) == 0:
+        k = draw(st.integers(0, n - 1))
+        ops.append({'op': 'rm_dir', 'ns': 'iso', 'path': '/%s/D2/D3/D4/D5/D6/D7/%s' % (tops[k], leaf)})
+        ops.append({'op': 'dir', 'ns': 'iso', 'path': '/%s/D2/D3/D4/D5/D6/D7/%s' % (tops[k], leaf), 'rr': 'again'})
+    return {'h': 'reloc-twins', 'new': new, 'ops': ops}
+
+
 case_st = st.one_of(t_single(), t_single(), t_single(), t_single(), t_dup(), t_dup(), t_readd(), t_other_ns(),
-                    t_other_version(), t_other_dir(), t_rr_dup(), t_link_dup(), t_depth())
+                    t_other_version(), t_other_dir(), t_rr_dup(), t_link_dup(), t_depth(), t_reloc_twins())
 
 
 # ------------------------------------------------------------------------------------
